@@ -174,10 +174,11 @@ const (
 	// not "undefined" (the value is what Invoke returns), but known to fail in the stream forms:
 	// several non-nil chunks arrive where an interface type is declared and must be concatenated
 	hzChunksIface = "chunks-into-interface-input"
-	// likewise: a map that may arrive in several chunks is the source of a mapping FromField(k) onto
-	// the whole input of a pointer-typed successor; every chunk without k becomes a fresh non-nil
-	// pointer in the stream forms
-	hzPtrWhole = "chunked-map-mapped-onto-pointer-input"
+	// likewise: a map that may arrive in several chunks is the source of a mapping FromField(k) /
+	// MapFields(k, f); in the stream forms every chunk without k becomes an item of its own: a fresh
+	// non-nil pointer for a successor declared as a pointer (mapping onto the whole input), a nil for
+	// one declared as an interface (which then fails the run-time check of a later edge)
+	hzPtrWhole = "mapping-from-chunked-map"
 )
 
 // softOrder: the marks in the order in which a deviation is attributed to them.
@@ -514,7 +515,7 @@ func (r *rres) consume(ps []pend, to ty, m *fmapSpec, join []string) got {
 		return got{merged, true, to}
 	}
 	if m != nil {
-		if _, isMap := ps[0].V.(map[string]any); isMap && ps[0].Multi && m.From != "" && m.To == "" && to == tPtr {
+		if _, isMap := ps[0].V.(map[string]any); isMap && ps[0].Multi && m.From != "" && ((m.To == "" && to == tPtr) || isIface(to)) {
 			r.soft(hzPtrWhole)
 		}
 		return got{r.mapOne(ps[0].V, ps[0].Ty, m, to), ps[0].Multi, to}
